@@ -1,3 +1,6 @@
+import PT.Props.C05
+import PT.Props.C06
+import PT.Props.C07
 import PT.Lemmas.Reach
 import PT.Props.C02
 /-!
@@ -5,8 +8,7 @@ import PT.Props.C02
 
 The abstract map of C01 stores, under each key `net p`, the pair (stored representation, value), so
 "which representation is stored" is part of the C01 refinement.  Collected here: what follows for
-representations.  The statements about set-operation items (which side's representation a `Both`
-item reports) are decided by correspondence only.
+representations, including which stored representation the items of the set operations report.
 -/
 namespace PT.C18
 open Tree Pfx
@@ -106,5 +108,32 @@ theorem view_set_repr {m : PMap w V} (h : m.TreeWF) {v : View w} (hg : View.Good
   have := PMap.viewSet_mem h hg x e
   rw [hv, hp] at this
   exact this
+
+
+/-! ### set-operation items report stored representations (never the query's, never a masked one) -/
+
+open SetOps in
+/-- union: a one-sided item reports the representation stored on its side, a `Both` item the one stored
+in the left operand -/
+theorem union_reports_stored {L R : Type} (a : Tree w L) (b : Tree w R) (hwa : HasWF a) (hwb : HasWF b) :
+    ∀ u ∈ (union a b).filterMap UItem.view,
+      (match u with
+       | .left p l _ => (l.1, p, l.2) ∈ a.slotEntries
+       | .right p _ r => (r.1, p, r.2) ∈ b.slotEntries
+       | .both p l r => (l.1, p, l.2) ∈ a.slotEntries ∧ ∃ pr, (r.1, pr, r.2) ∈ b.slotEntries ∧ pr.net = p.net) :=
+  PT.C05.union_item_repr a b hwa hwb
+
+open SetOps in
+/-- intersection: the representation stored in the left operand -/
+theorem intersection_reports_stored {L R : Type} (a : Tree w L) (b : Tree w R) (hwa : HasWF a) (hwb : HasWF b)
+    (it : IItem w L R) (h : it ∈ intersection a b) : (it.l.1, it.p, it.l.2) ∈ a.slotEntries :=
+  (PT.C06.intersection_sound a b hwa hwb it h).1
+
+open SetOps in
+/-- difference and covering difference: the representation stored in the left operand -/
+theorem difference_reports_stored {L R : Type} (a : Tree w L) (b : Tree w R) (hwa : HasWF a) (hwb : HasWF b) :
+    ((difference a b).map (fun it => (it.v.1, it.p, it.v.2))).Sublist a.slotEntries ∧
+    ((coveringDifference a b).map (fun it => (it.v.1, it.p, it.v.2))).Sublist a.slotEntries :=
+  ⟨PT.C07.difference_order a b hwa hwb, PT.C07.coveringDifference_order a b hwa hwb⟩
 
 end PT.C18
